@@ -19,6 +19,10 @@ Holds(r) ==
     [] r.k = "fromb" -> r.res = FromBytesLE16(r.b)
     \* one byte of the word, read or written on its own: lob (PEEK of the low byte), setlo (the word after a POKE into the low
     \* byte of a word that was a: the other byte stays)
+    \* the operators where a CONDITION stands (IF, ELSEIF, WHILE, DO UNTIL): true exactly when the word they yield is not 0
+    [] r.k = "andtruth" -> r.res = (IF And16(r.a, r.b) # 0 THEN 1 ELSE 0)
+    [] r.k = "ortruth" -> r.res = (IF Or16(r.a, r.b) # 0 THEN 1 ELSE 0)
+    [] r.k = "nottruth" -> r.res = (IF Not16(r.a) # 0 THEN 1 ELSE 0)
     [] r.k = "lob" -> r.res = BytesLE16(r.a)[1]
     [] r.k = "setlo" -> r.res = FromBytesLE16(<<r.b, BytesLE16(r.a)[2]>>)
     [] r.k = "f64" -> r.bytes = IeeeBytesLE(r.f) /\ r.back = r.f
